@@ -311,14 +311,11 @@ func genWriter(r *rand.Rand, tier string) Case {
 	seen := map[[3]int64]bool{}
 	for i := 0; i < n; i++ {
 		m := genWMsg(r, false)
-		if m.Tag == 7 { // the writer rejects a second piece for the same request triple
-			k := [3]int64{m.A, m.B, int64(len(m.Data))}
-			if seen[k] {
-				continue
-			}
-			seen[k] = true
-		}
 		in = append(in, m.Flat()...)
+		if m.Tag == 7 && r.Intn(3) == 0 { // the same request served again: must go out as a reject, uncounted
+			in = append(in, m.Flat()...)
+		}
+		_ = seen
 	}
 	if len(in) == 0 {
 		in = []int64{0}
@@ -605,7 +602,109 @@ func genReader(r *rand.Rand, tier string) Case {
 	return Case{In: in, Obs: Guard(func() []int64 { return runReader(in) })}
 }
 
+// runReaderSlow: like runReader but with a short piece timeout and pauses between chunks, so a
+// block arrives across several read deadlines.  in = [maxmsg; nbytes; bytes...; (chunk pause_ms)*]
+func runReaderSlow(in []int64) []int64 {
+	maxmsg := int(in[0])
+	data, rest := takeLP(in[1:])
+	c1, c2, err := TCPPair()
+	if err != nil {
+		return []int64{-704}
+	}
+	rd := peerreader.New(c1, logger.New("verif"), 100*time.Millisecond, maxmsg, nil)
+	go rd.Run()
+	go func() {
+		pos := 0
+		for i := 0; i+1 < len(rest) && pos < len(data); i += 2 {
+			n := int(rest[i])
+			if pos+n > len(data) {
+				n = len(data) - pos
+			}
+			if _, err := c2.Write(data[pos : pos+n]); err != nil {
+				return
+			}
+			pos += n
+			time.Sleep(time.Duration(rest[i+1]) * time.Millisecond)
+		}
+		if pos < len(data) {
+			_, _ = c2.Write(data[pos:])
+		}
+		c2.Close()
+	}()
+	var obs []int64
+	for {
+		select {
+		case m := <-rd.Messages():
+			obs = append(obs, flatOfReal(m)...)
+			if p, ok := m.(peerreader.Piece); ok {
+				p.Buffer.Release()
+			}
+		case <-rd.Done():
+			c1.Close()
+			c2.Close()
+			return obs
+		}
+	}
+}
+
+func genReaderSlow(r *rand.Rand, tier string) Case {
+	// have, piece (delivered in 2..5 slow chunks inside its data), have
+	dl := 200 + r.Intn(3000)
+	pm := WMsg{Tag: 7, A: int64(r.Intn(100)), B: 16384 * int64(r.Intn(4)), Data: make([]byte, dl)}
+	r.Read(pm.Data)
+	h1 := WMsg{Tag: 4, A: int64(r.Intn(1000))}
+	h2 := WMsg{Tag: 4, A: int64(r.Intn(1000))}
+	data := append(append(h1.Wire(), pm.Wire()...), h2.Wire()...)
+	in := append([]int64{30 << 20}, lpBytes(data)...)
+	k := 6 + r.Intn(4)
+	first := 9 + 13 + 10 + r.Intn(dl/k) // header of the piece plus some of its data
+	in = append(in, int64(first), 40)
+	for i := 1; i < k-1; i++ {
+		in = append(in, int64(1+r.Intn(dl/k)), 40)
+	}
+	// every 100 ms window contains a chunk, so the reader must keep the connection; scheduling
+	// jitter can starve a window, therefore an incomplete delivery is retried (flake policy)
+	obs := Guard(func() []int64 { return runReaderSlow(in) })
+	want := len(h1.Flat()) + len(pm.Flat()) + len(h2.Flat())
+	for try := 0; try < 2 && len(obs) != want; try++ {
+		obs = Guard(func() []int64 { return runReaderSlow(in) })
+	}
+	return Case{In: in, Obs: obs}
+}
+
+// runRoundtrip: messages -> real PeerWriter -> TCP -> real PeerReader -> messages
+func runRoundtrip(in []int64) []int64 {
+	w := runWriter(in)
+	if len(w) < 2 {
+		return []int64{-706}
+	}
+	w = w[:len(w)-2]
+	rin := append([]int64{30 << 20, int64(len(w))}, w...)
+	for i := 0; i < 8; i++ {
+		rin = append(rin, 1+int64(len(in)*7+i*13)%97)
+	}
+	return runReader(rin)
+}
+
+func genRoundtrip(r *rand.Rand, tier string) Case {
+	n := 1 + r.Intn(6)
+	var in []int64
+	for i := 0; i < n; i++ {
+		m := genWMsg(r, true)
+		if m.Tag == 101 && r.Intn(2) == 0 { // metadata messages of big infos: large piece index / total size
+			m.B = pick(r, 99, 100, 1234, 99999)
+			m.C = pick(r, 0, 9999999, 10000000, 30<<20)
+		}
+		in = append(in, m.Flat()...)
+	}
+	return Case{In: in, Obs: Guard(func() []int64 { return runRoundtrip(in) })}
+}
+
 func init() {
+	Register(1103, "peerreader with a 100 ms piece timeout, block delivered in slow chunks", genReaderSlow)
+	RegisterReplay(1103, runReaderSlow)
+	Register(1104, "round trip: messages -> real PeerWriter -> TCP -> real PeerReader", genRoundtrip)
+	RegisterReplay(1104, runRoundtrip)
 	Register(1101, "peerwriter over net.Pipe: bytes written and BlockUploaded sum", genWriter)
 	RegisterReplay(1101, runWriter)
 	Register(1102, "peerreader over net.Pipe with scripted chunking: messages delivered", genReader)
